@@ -143,7 +143,13 @@ one(char * line)
 		if (strcmp(tok, "-") == 0) argv[argc][0] = 0; else unhex(tok, argv[argc], len);
 		argc++;
 	}
-	argv[argc] = NULL;
+	/* the vector handed over is argc words long; what lies behind it is not the parser's (every other parse finds a word there
+	 * that looks like an option argument instead of the customary NULL) */
+	{
+		static unsigned flip;
+		argv[argc] = (flip++ & 1) ? strdup("-f") : NULL;
+		argv[argc + 1] = NULL;
+	}
 	vt_begin("go_begin"); vt_int("t", table); vt_int("abandon", abandon);
 	fprintf(vt_out, ",\"argv\":[");
 	for (i = 1; i < argc; i++) {
@@ -165,7 +171,7 @@ one(char * line)
 	} else {
 		vt_begin("go_abandoned"); vt_end();
 	}
-	for (i = 0; i < argc; i++) free(argv[i]);
+	for (i = 0; i <= argc; i++) free(argv[i]);
 }
 
 int
